@@ -1497,17 +1497,17 @@ package mcp
 // only if the count is still the same when it is filled in (under the cache lock); invalidation advances the count
 // and empties the cache (or removes the key). So an answer computed before a change can no longer be cached after the
 // notification about that change was handled (finding F6: the caches used to be filled unconditionally; repaired).
-//@ func (*methodCache[R]).generation [C18]
+//@ func (*methodCache[R]).generation [C18, C17]
 //@   ensures @current-count result == mc.gen
-//@ func (*methodCache[R]).putIfCurrent [C18]
+//@ func (*methodCache[R]).putIfCurrent [C18, C17]
 //@   modifies mc.cachedValues, mapOf(mc.cachedValues)
 //@   ensures @stale-answer-is-dropped old(mc.gen) != gen ==> mc.cachedValues == old(mc.cachedValues) && (forall k string :: {inDom(mc.cachedValues, k)} inDom(mc.cachedValues, k) <==> old(inDom(mc.cachedValues, k)))
 //@   ensures @current-answer-is-stored old(mc.gen) == gen ==> inDom(mc.cachedValues, key) && mc.cachedValues[key] != nil && mc.cachedValues[key].result == result
-//@ func (*methodCache[R]).invalidate [C18]
+//@ func (*methodCache[R]).invalidate [C18, C17]
 //@   assume mc.gen < 18446744073709551615   // fewer than 2^64 invalidations
 //@   modifies mc.gen, mapOf(mc.cachedValues)
 //@   ensures @count-advances-and-cache-is-empty mc.gen == old(mc.gen) + 1 && (forall k string :: {inDom(mc.cachedValues, k)} !inDom(mc.cachedValues, k))
-//@ func (*methodCache[R]).invalidateKey [C18]
+//@ func (*methodCache[R]).invalidateKey [C18, C17]
 //@   assume mc.gen < 18446744073709551615   // fewer than 2^64 invalidations
 //@   modifies mc.gen, mapOf(mc.cachedValues)
 //@   ensures @count-advances-and-key-is-gone mc.gen == old(mc.gen) + 1 && !inDom(mc.cachedValues, key)
